@@ -372,7 +372,7 @@ pub const MALFORMED_TARGETS: &[&str] = &[
     "random_opened.rounds", "random_opened[0]", "random_opened[0][0]", "random_opened[last][0]", "random_opened[0][0][0]",
     "params.log_blowup", "params.num_queries", "params.log_final_poly_len", "params.commit_pow_bits", "params.query_pow_bits",
 ];
-pub const OPS: &[&str] = &["shorten", "lengthen", "empty", "inc", "dec", "toggle"];
+pub const OPS: &[&str] = &["shorten", "lengthen", "empty", "inc", "dec", "toggle", "zero", "huge", "huger"];
 
 fn pick(n: usize, pos: &Value) -> usize {
     match pos {
@@ -410,6 +410,11 @@ fn alter_count(c: &mut usize, op: &str) -> Result<Value, String> {
         "inc" => *c += 1,
         "dec" if before > 0 => *c -= 1,
         "dec" => return Err("count is already 0".into()),
+        // out-of-range values of a parameter / count: the smallest and absurdly large ones
+        "zero" if before > 0 => *c = 0,
+        "zero" => return Err("count is already 0".into()),
+        "huge" => *c = 63,
+        "huger" => *c = usize::MAX / 2,
         _ => return Err(format!("op {op} does not apply to a count")),
     }
     Ok(json!({"before": before, "after": *c}))
